@@ -54,6 +54,21 @@ ASSUMPTIONS = ["restart chains run without a gradient scaler (scaler x restart i
 def gen(rng, tier, index):
     if rng.random() < 0.15:
         return {"kind": "synthetic", "sseed": int(rng.integers(0, 2**31 - 1)), "count": 20}
+    if rng.random() < 0.15:
+        # objective redefinition: every operator met afterwards must still hold only pairs with s.y > 0
+        spec = draw_problem_spec(rng, list(FAMILIES), nmax=12)
+        cfg = draw_cfg(rng, jac_modes=["callable"], allow_scaler=False)
+        cfg["maxcor"] = int(rng.integers(2, 13))
+        cfg["maxiter"] = int(rng.integers(4, 20))
+        cfg["ftol"] = 0.0
+        cfg["gtol"] = 0.0
+        mode = str(choice(rng, ["arbitrary", "reweight"]))
+        sw = {"mode": mode, "at": int(rng.integers(3, 10)), "seed": int(rng.integers(0, 2**31 - 1))}
+        if mode == "arbitrary":
+            sw.update(frac=float(rng.uniform(0.2, 0.9)), touch_newest=False)
+        else:
+            sw.update(lam=float(10.0 ** rng.uniform(-1, 1.5)), reg="cos")
+        return {"kind": "rewrite", "problem": spec, "cfg": cfg, "switch": sw}
     spec = draw_problem_spec(rng, list(FAMILIES), nmax=30)
     cfg = draw_cfg(rng, jac_modes=["callable"], allow_scaler=True)
     cfg["maxcor"] = int(rng.integers(1, 13))
@@ -247,11 +262,63 @@ def execute_history(plan, stats, keys, viol):
     return "|".join(digests)
 
 
+def execute_rewrite(plan, stats, keys, viol):
+    from . import c13
+    from ..world import World
+
+    problem = build_problem(plan["problem"])
+    cfg = dict(plan["cfg"])
+    sw = plan["switch"]
+    info = {"fired": False}
+    W = World(rewriter=c13.make_rewriter(problem, sw, info))
+    maxcor = int(cfg["maxcor"])
+
+    def judge(act, obj, where):
+        if not info["fired"]:
+            return
+        sk = np.asarray(obj.hess_inv.sk, dtype=float)
+        yk = np.asarray(obj.hess_inv.yk, dtype=float)
+        m = sk.shape[0] if sk.size else 0
+        stats["or.operators_after_redefinition"] += 1
+        if m > maxcor:
+            viol.append({"clause": "more_than_maxcor_pairs", "witness": {"where": where, "pairs": int(m), "maxcor": maxcor, "after_redefinition": True}})
+        if m:
+            sy = np.sum(sk * yk, axis=1)
+            if not (sy > 0).all():
+                viol.append({"clause": "pair_without_positive_curvature", "witness": {"where": where, "min_sy": float(np.min(sy)), "after_redefinition": sw["mode"]}})
+            keys.add("rewrite|%s|%d|%d|%s" % (sw["mode"], maxcor, m, bool((sy > 0).all())))
+
+    def on_state(act, rec, state):
+        judge(act, state, "callback state nit=%d" % int(state.nit))
+
+    c = dict(cfg)
+    c["callback"] = {}
+    c["update"] = {"mode": sw["mode"]}
+    A = Act(problem, c, world=W, on_state=on_state).run()
+    stats["activations"] += 1
+    stats["events"] += A.n_events
+    if A.result is None:
+        stats["nj.run_raised"] += 1
+        return A.event_digest()
+    if info["fired"]:
+        stats["fault.rewrite." + sw["mode"]] += 1
+        # (a stop test firing in the very iteration of the rewrite leaves an unfiltered result: known
+        # finding K09b of C13, not judged here)
+        if any(t[0] >= info["event"] for t in A.up_log):
+            judge(A, A.result, "result")
+        else:
+            stats["nj.stopped_right_after_rewrite"] += 1
+    return A.event_digest()
+
+
 def execute(plan):
     stats = Counter()
     keys = set()
     viol = []
-    if plan["kind"] == "synthetic":
+    if plan["kind"] == "rewrite":
+        digest = execute_rewrite(plan, stats, keys, viol)
+        shape = {"kind": "rewrite", "mode": plan["switch"]["mode"]}
+    elif plan["kind"] == "synthetic":
         execute_synthetic(plan, stats, keys, viol)
         digest = "synthetic"
         shape = {"kind": "synthetic"}
